@@ -160,6 +160,73 @@ theorem C16_invariant_all_histories (ops : List TableOp) : TableInv (ops.foldl r
       · exact h
     | take id => exact C16_take_inv t id h
 
+/-- what `store` does when it succeeds, without assuming the invariant -/
+theorem store_some {t : Table} {errno : Nat} {cands : List Int} {id : Int} {t' : Table}
+    (h : store t errno cands = some (id, t')) : t' = (id, errno) :: t ∧ (t.lookup id).isNone = true := by
+  induction cands with
+  | nil => simp [store] at h
+  | cons c rest ih =>
+    unfold store at h
+    split at h
+    · rename_i hc
+      cases h
+      exact ⟨rfl, hc.2.2⟩
+    · exact ih h
+
+/-- one operation other than the consumption of `id` leaves the entry of `id` as it is -/
+theorem runOp_keeps (t : Table) (id : Int) (e : Nat) (hl : List.lookup id t = some e)
+    (op : TableOp) (hop : op ≠ .take id) : List.lookup id (runOp t op) = some e := by
+  cases op with
+  | store e' cands =>
+    simp only [runOp]
+    split
+    · rename_i id' t' hs
+      obtain ⟨ht', hvac⟩ := store_some hs
+      subst ht'
+      have hne : (id == id') = false := by
+        apply Bool.eq_false_iff.mpr
+        intro heq
+        have : id = id' := by simpa using heq
+        subst this
+        rw [hl] at hvac
+        simp at hvac
+      simp [List.lookup, hne, hl]
+    · exact hl
+  | take id2 =>
+    have hne : id ≠ id2 := by
+      intro h; subst h; exact hop rfl
+    simp only [runOp]
+    rw [C16_take_other t id2 id hne]
+    exact hl
+
+/-- **None lost, in every history.**  An error that is live stays retrievable with
+its errno through any sequence of operations — any number of other errors stored
+and consumed meanwhile, by any thread, in any order — that does not consume it. -/
+theorem C16_live_until_taken (t : Table) (id : Int) (e : Nat) (hl : List.lookup id t = some e)
+    (ops : List TableOp) (hno : ∀ op ∈ ops, op ≠ .take id) :
+    List.lookup id (ops.foldl runOp t) = some e := by
+  induction ops generalizing t with
+  | nil => exact hl
+  | cons op rest ih =>
+    simp only [List.foldl_cons]
+    apply ih
+    · exact runOp_keeps t id e hl op (hno op (List.mem_cons_self ..))
+    · intro op' h'
+      exact hno op' (List.mem_cons_of_mem _ h')
+
+/-- … and the later `pathrs_errorinfo(id)` returns exactly that errno, after which
+the id is dead: stored → (anything but its consumption)* → consumed once → NULL. -/
+theorem C16_backlog_consumed_once (t : Table) (errno : Nat) (cands : List Int) (id : Int) (t' : Table)
+    (h : store t errno cands = some (id, t')) (ops : List TableOp) (hno : ∀ op ∈ ops, op ≠ .take id) :
+    (take (ops.foldl runOp t') id).1 = some errno ∧
+    (take (take (ops.foldl runOp t') id).2 id).1 = none := by
+  obtain ⟨ht', _⟩ := store_some h
+  subst ht'
+  have hl := C16_live_until_taken ((id, errno) :: t) id errno (lookup_cons_self t id errno) ops hno
+  constructor
+  · simp [take, hl]
+  · simp only [take, hl, lookup_filter_ne]
+
 /-- the errno reported for each error kind -/
 theorem C16_errno_table :
     cErrno (.os 2) = 2 ∧ cErrno .invalidArgument = K.EINVAL ∧ cErrno .safetyViolation = K.EXDEV ∧
@@ -170,6 +237,11 @@ theorem C16_errno_table :
 /-! ## Non-vacuity -/
 
 example : store [(-5000, 2)] 22 [-5000, 7, -4096] = some (-4096, [(-4096, 22), (-5000, 2)]) := by decide
+example : (take ([TableOp.store 5 [-7000], .take (-5000), .store 9 [-5000]].foldl runOp
+    [(-4096, 22), (-5000, 2)]) (-4096)).1 = some 22 :=
+  (C16_backlog_consumed_once [(-5000, 2)] 22 [-5000, 7, -4096] (-4096) _ (by decide) _
+    (by intro op h; simp only [List.mem_cons, List.not_mem_nil, or_false] at h
+        rcases h with rfl | rfl | rfl <;> simp)).1
 example : TableInv [(-4096, 22), (-5000, 2)] := by
   refine ⟨by decide, ?_⟩
   intro kv hkv
